@@ -431,6 +431,9 @@ def check(pid, tier, seed, t0, st, replay):
                     fam_ = [c_ for c_ in cases if c_['origin'] == 'family']
                     ostats, obad = objview.check(pid, fam_[:25 if tier == 'quick' else 200] + fam_[-12:], work, B + '/harness')
                     stats.update(ostats)
+                    pstats, pbad = objview.check_pairs(pid, fam_[:4] + fam_[-3:], work, B + '/harness', 10 if tier == 'quick' else 120, seed)
+                    stats.update(pstats)
+                    obad = obad + pbad
                     for b_ in obad[:5]:
                         res.violations.append(dict(property=pid, what=b_['what'], query=b_.get('query'), detail=b_.get('detail'),
                                                    how='scan the listed family files and run the query with `pathfinder query --output json`',
